@@ -77,6 +77,7 @@ def initial_state(ex, table, specs, contract, fi, cls):
                 if not tys.strip().endswith('?'):
                     st.assume(v.t != NONE)
                 ex.note_dict(v)
+                ex.tag_container(st, v)
                 if ty.cls == 'list':
                     st.assume(st.heap.llen(v.t) >= 0)
         args[p] = v
@@ -96,6 +97,8 @@ def gen_obligations(table, specs, contract, cls, deadline=None):
     ex.deadline = deadline
     st, self_v, args = initial_state(ex, table, specs, contract, fi, cls)
     ex.task_self = self_v
+    if self_v is not None:
+        ex.tag_reachable(st, self_v.t, cls)
     fr = Frame(fi, cls, 0)
     st.loc = dict(args)
     base = f'{cls}.{fi.name}' if fi.kind != 'static' else contract.qual
@@ -146,7 +149,7 @@ def gen_obligations(table, specs, contract, cls, deadline=None):
                 g = specs.eval_bool(ex, text, ss, fr)
                 ex.oblige(f'{base}.{nm}', s1, g, 'post', {'clause': text, 'props': props})
             for exc, cond, clauses in contract.raises:
-                if cond is not None:
+                if cond is not None and not cond.startswith('only_if:'):
                     g = z3.Not(specs.eval_bool(ex, cond, entry, fr))
                     ex.oblige(f'{base}.raises_{exc}_iff', s1, g, 'post',
                               {'clause': f'returns normally only if not ({cond})', 'props': list(contract.props)})
@@ -161,7 +164,7 @@ def gen_obligations(table, specs, contract, cls, deadline=None):
             if decl:
                 exc, cond, clauses = decl[0]
                 if cond is not None:
-                    g = specs.eval_bool(ex, cond, entry, fr)
+                    g = specs.eval_bool(ex, cond[8:] if cond.startswith('only_if:') else cond, entry, fr)
                     ex.oblige(f'{base}.raises_{exc}_iff', s1, g, 'post',
                               {'clause': f'raises {exc} only if ({cond})', 'props': list(contract.props)})
                 for cname, text in clauses:
